@@ -112,6 +112,8 @@ class Ctx:
             else:
                 known.setdefault(k["id"], [k, 0])
                 known[k["id"]][1] += 1
+        from collections import Counter
+        self.extra["rejection_signatures"] = dict(Counter(f["sig"] for f in self.failures))
         for kid, (k, n) in sorted(known.items()):
             print("KNOWN-FINDING: property=%s %s: %s (%d executions)" % (self.pid, kid, k["what"], n))
         rc = 0
